@@ -93,10 +93,14 @@ CHECKS = {
              "triangle of the line-of-sight conjunction, the relation and basic_visibility itself are symmetric in the two "
              "points (field laws, eps >= 0), and -- conditional on pip_correct along the line -- hidden <=> the open "
              "segment meets the surface, with the endpoint and coplanar branches characterised. pip_correct (the "
-             "winding test with tolerances) is NOT proved and is refuted as a universal statement by a Qc witness "
-             "(ray through a pointed vertex: known finding C07/ray_through_vertex). Correspondence against an exact "
-             "rational segment/polygon oracle.",
-        note=TRUST + "Winding-number correctness is validated by differential testing only.",
+             "winding test with tolerances) is proved for axis-aligned rectangular surfaces (six orientations, eight "
+             "vertex orders, margin eta/2 from the edge lines, sqrt laws), which makes the segment logic unconditional "
+             "for shoebox rooms, and for triangles on axis planes in general position; for any polygon on an axis "
+             "plane in general position it is reduced to a tolerance-free crossing number; for general polygons it is NOT proved and is refuted as a universal statement by a Qc "
+             "witness (ray through a pointed vertex: known finding C07/ray_through_vertex). Correspondence against an "
+             "exact rational segment/polygon oracle.",
+        note=TRUST + "Winding-number correctness for non-rectangular or rotated surfaces is validated by differential "
+             "testing only.",
         technique="Coq proof over ordered field + extracted-model correspondence + exact-rational oracle", ref="5/C07"),
     "C19": dict(
         text="Proof: the Kang list model's order-(k+1) histogram is the stated sum over the patches of all other walls "
